@@ -297,11 +297,17 @@ class C01(Prop):
         for nm in allnames:
             for ws in (True, False):
                 gens.append({"kind": "named", "name": nm, "ws": ws, "seed": rnd.getrandbits(30)})
+        # the object-history machine (spec/ObjOps.tla): a tree that has a history renders like a fresh one
+        from .. import objhist
+        gens += objhist.gens(rnd, 120 if tier == "quick" else 2500, 1)
         return gens
 
     def execute(self, g):
         import random
         import htmltools as H
+        if g["kind"] == "objhist":
+            from .. import objhist
+            return objhist.execute(g, H)
         rnd = random.Random(g["seed"])
         if g["kind"] == "tree":
             obj, described = self.concretise(g["tree"], H, rnd, g["salt"])
